@@ -8,7 +8,7 @@ def run(ctx):
 
 
 def replay(case, st):
-    if 'scalar' in case:
+    if 'scalar' in case or case.get('prop') == 'microsecond':
         rt.replay_scalar(case, st)
     else:
         rt.replay_case(case, st)
